@@ -38,6 +38,15 @@ CHECKS = {
  "C17": dict(level="exploration", technique="property-based testing (Hypothesis): boundary-value generation around volume/surface/slot ends with a prefix-of-in-bounds-bytes oracle (ASan build)",
    text="A probe entry ends -2..+2 (and further) sectors around every Opus volume end, surface end, interleaved side end and MMB slot end; anything printed or extracted must be a prefix of the in-bounds bytes, inside extents must read exactly, crossing extents must fail with a diagnostic.",
    note="Trusted: neighbouring regions hold different random data so foreign bytes cannot coincide.", ref="4 C17"),
+ "C05": dict(level="exploration", technique="property-based testing (Hypothesis): differential between flux images written by independent FM/MFM/HFE/HxC encoders and per-side sector dumps of the same disc",
+   text="Every generated disc is written as sector dumps and as HFE v1 / v3 / HxC MFM with drawn legal gaps, sync lengths, sector order, track length and v3 opcodes (incl. SKIPBITS and block-boundary positions); stdout and exit status of the commands must be identical.",
+   note="Trusted: the Python encoders (validated once against the real reader and the repo's test images' behaviour); 'legal' layout ranges as listed in DESIGN.md.", ref="4 C05"),
+ "C06": dict(level="exploration", technique="coverage-guided fuzzing (libFuzzer target fuzz_track with brute-force reference decoder in the target, bit-slip custom mutator) + property-based fault injection on flux images",
+   text="Decoder level: every sector returned for an arbitrary bit stream must be backed by a CRC-valid ID and data field found by an independent brute-force scan, correctly paired. Image level: 1-5 drawn faults (flips, slips, drop-outs, wiped syncs, truncation) on known images; every (side, track, sector) read must fail or return exactly the recorded bytes.",
+   note="Trusted: the brute-force reference scan and CRC; fault positions come from the encoder's field map.", ref="4 C06", engine="E-hyp + E-fuzz"),
+ "C16": dict(level="exploration", technique="model-based / stateful property-based testing (Hypothesis): option histories, every prefix run, allocation model + invariants; exhaustive enumeration of short histories",
+   text="Histories of --drive-first/--drive-physical/--file options over ssd/sdd/dsd/ddd/hfe/mmb images with unique titles and bodies; every prefix is executed; assignments must be distinct, stable under extension, obey the policy invariants, agree with --show-config and be what addressed commands read.",
+   note="Trusted: titles/bodies unique per surface identify what was read; exact placement under the physical policy is not asserted beyond the stated invariants.", ref="4 C16"),
 }
 
 def main():
